@@ -49,7 +49,7 @@ def parse_sel(txt):
 
 
 def groups(tier, seed):
-    gs = []
+    gs = ["nan:mh", "nan:mala", "nan:hmc"]
     for n, sels in MH_SEL.items():
         gs += [f"mh:{n}:{s}" for s in sels]
     for n, sels in GRAD_SEL.items():
@@ -101,6 +101,8 @@ def cond_states_equal(st, acc=None):
 
 
 def run_group(g, gid):
+    if gid.startswith("nan:"):
+        return nan_safety(g, gid.split(":")[1])
     from genjax import state as gstate
     from genjax.inference import mh, mala, hmc
     parts = gid.split(":")
@@ -309,3 +311,50 @@ def grad_group(g, T, case, tag, spec, acc, u, dom, proposed, pre, state, ref_old
     else:
         g.holds(f"{tag}: accept iff log u < min(0, log MH ratio) for that proposal", acc == (sj.Log(u) < z3.If(la < 0, la, 0)), A, cases=cs)
     g.fault_twin("ratio-without-proposal-correction", acc == (sj.Log(u) < z3.If(la + 1 < 0, la + 1, 0)), A)
+
+
+def nan_safety(g, kernel):
+    """Extended-real (NaN / +-inf aware) mode: a proposal that leaves the support has an undefined (NaN) density; the
+    Metropolis-Hastings rule must reject it -- the kernel never returns a trace whose score is NaN or infinite, and a
+    finite current state with a NaN acceptance ratio stays where it is."""
+    from genjax import gen, normal, sel
+    from genjax.inference import mh, mala, hmc
+
+    @gen
+    def scale_model():
+        s = normal(1.0, 1.0) @ "s"          # the scale of y: only s > 0 has a defined density
+        y = normal(0.0, s) @ "y"
+        return y
+    g.programs.add("scale_model")
+    g.sample(program="s ~ normal(1, 1); y ~ normal(0, s)   (proposals with s <= 0 have an undefined density)", kernel=kernel)
+    kern = {"mh": lambda t: mh(t, sel("s")), "mala": lambda t: mala(t, sel("s"), 0.5), "hmc": lambda t: hmc(t, sel("s"), 0.5, 2)}[kernel]
+    tr0 = gfi.example_trace(scale_model, [], {})
+    flat, _ = jax.tree_util.tree_flatten(tr0)
+    names = [jax.tree_util.keystr(k) for k, _ in jax.tree_util.tree_flatten_with_path(tr0)[0]]
+    plain = [sj.fresh_like(l.shape, l.dtype, f"t{i}") for i, l in enumerate(flat)]
+    sym_in = [sj.ew(lambda t: sj.XV.fin(t))(None, None, a) if sj.kind_of(l.dtype) == "f" else a for a, l in zip(plain, flat)]
+
+    def f(t):
+        new = kern(t)
+        return new.get_score(), new.get_choices()["s"], t.get_choices()["s"]
+    pre = g.try_trace(f"{kernel} [NaN/inf aware] traces", f, tr0)
+    if pre is None:
+        return
+    g.traces.remove(pre)
+    T = g.trace(f, tr0, sym_in=sym_in)
+    T.validate_random_only = True
+    score, s_new, s_old = [sj.obj(x).item() for x in T.outs]
+    # the current state is valid: every scale recorded in the trace is positive (all other fields: any finite reals)
+    A = []
+    for nm, a in zip(names, plain):
+        if nm.endswith("['s']._choices") or nm.endswith("['y']._args[0][1]"):
+            A += [t > 0 for t in sj.terms(a)]
+    # uniform accept thresholds lie in (0, 1)
+    for site in T.sites:
+        if (site.name or "").lower() == "uniform":
+            A += [z3.And(sj.to_xv(o).v > 0, sj.to_xv(o).v < 1) for o in sj.obj(site.outs[0]).ravel()]
+    g.assume(*A)
+    sc, sn, so = sj.to_xv(score), sj.to_xv(s_new), sj.to_xv(s_old)
+    g.holds(f"{kernel} [NaN/inf aware]: the returned trace never has a NaN score (a proposal of undefined density is rejected)", z3.Not(sc.nan))
+    g.holds(f"{kernel} [NaN/inf aware]: the returned value of s is finite and either the old value or inside the support (s > 0)",
+            z3.And(sn.finite(), z3.Or(sn.v == so.v, sn.v > 0)))
